@@ -9,6 +9,7 @@ from dsim.sim import ALL_SLOTS, Sim
 from dsim.world import substream
 
 PROPERTY = "C01"
+DECOY = 0.25  # share of runs that edit a second document first and keep it open (runner.with_decoy)
 RULE = (
     "one run = a new document of a seeded shape (incl. tables straddling 256-row tiles and 256 columns), 40-400 seeded values "
     "(text incl. empty/multi-line/astral/100k chars, both bools, ints |n|<1e15, floats of <=15 significant digits in 1e-290..1e290 and 0.0, "
